@@ -439,6 +439,15 @@ func formEntry() *entry {
 			genSets(g, prog)
 		}
 		runFormProg(c, e, prog, withSubmit)
+		// the form decoded into a target that already holds another form
+		var a, b []byte
+		if guard(c, "form.Data", "constructors", func() {
+			b = firstGoodEncoding(prog.build())
+			a = firstGoodEncoding(genFormProg(g, false).build())
+		}) || len(a) == 0 || len(b) == 0 {
+			return
+		}
+		reuseCheck(c, e, "UnmarshalXML(encoding)", a, b)
 	}
 	return e
 }
